@@ -185,6 +185,9 @@ class SCTPParser(HeaderParser):
     def _parse_chunk(self, buffer: Buffer) -> Tuple[List[FieldDescriptor], int]:
         fields: List[FieldDescriptor] = []    
 
+        if buffer.length < 32:
+            raise ParserError(buffer=buffer, message=f'chunk header truncated: {buffer.length} < 32')
+
         # Chunk Type: 8 bits
         chunk_type: Buffer = buffer[0:8]
         fields.append(FieldDescriptor(id=SCTPFields.CHUNK_TYPE, position=0, value=chunk_type))
@@ -198,6 +201,9 @@ class SCTPParser(HeaderParser):
         fields.append(FieldDescriptor(id=SCTPFields.CHUNK_LENGTH, position=0, value=chunk_length))
         
         chunk_length_value: int = chunk_length.value(type='unsigned int') * 8
+        if chunk_length_value < 32 or chunk_length_value > buffer.length:
+            # the chunk length includes the 4 bytes of type, flags and length and cannot exceed what is left
+            raise ParserError(buffer=buffer, message=f'invalid chunk length: {chunk_length_value} bits')
             
         # Chunk Value: variable length
         chunk_value_length = chunk_length_value - 32  # Length includes the 4 bytes of type, flags, and length
@@ -613,6 +619,10 @@ class SCTPParser(HeaderParser):
         +-+-+-+-+-+-+-+-+-+-+-+-+-+-+-+-+-+-+-+-+-+-+-+-+-+-+-+-+-+-+-+-+
         """
         fields: List[FieldDescriptor] = []
+
+        if buffer.length < 32:
+            raise ParserError(buffer=buffer, message=f'parameter header truncated: {buffer.length} < 32')
+
         parameter_type: Buffer = buffer[0:16]
         parameter_length: Buffer = buffer[16:32]
         
@@ -622,6 +632,9 @@ class SCTPParser(HeaderParser):
         ])
         
         parameter_length_value: int = parameter_length.value() * 8
+        if parameter_length_value < 32 or parameter_length_value > buffer.length:
+            # the parameter length includes the 4 bytes of type and length and cannot exceed what is left
+            raise ParserError(buffer=buffer, message=f'invalid parameter length: {parameter_length_value} bits')
         parameter_value_length: int = parameter_length_value - 32
         if parameter_value_length > 0:
             parameter_value: Buffer = buffer[32: parameter_length_value]
